@@ -491,6 +491,10 @@ class Executor:
     def slice_get(self, st, sl, i):
         terms = [z3.Select(a, sl.off + i) for (_, _, a) in self.region_arrays(st, sl)]
         v, _ = unflatten(sl.elem, terms)
+        eu = sl.elem.under()
+        if eu.k == "slice" or (eu.k == "basic" and eu.d.get("b") == "string"):
+            # a slice / string header read from memory is a well-formed header (len <= cap, ...)
+            self.type_facts(st, v, sl.elem, param=False)
         return v
 
     def slice_set(self, st, sl, i, v):
